@@ -30,6 +30,7 @@ type Config struct {
 	CrossCheck      bool // re-ask assertion queries of cvc5
 	ValidateSamples int  // passing paths whose model is kept for native validation
 	MaxFindings     int  // per (label,kind)
+	Estimate        int  // > 0: Knuth estimator with this many random probes instead of exploration
 	Trace           bool
 	Deadline        time.Time
 }
@@ -99,6 +100,7 @@ type Explorer struct {
 	Solver       SolverStats
 	MaxThreads   int
 	Wall         time.Duration
+	EstSum       float64
 }
 
 type Worker struct {
@@ -234,6 +236,9 @@ func (ex *Explorer) Run() {
 	ex.FuncInstr = map[string]int{}
 	ex.Stubs = map[string]int{}
 	ex.frontier = [][]int32{{}}
+	for k := 1; k < ex.Cfg.Estimate; k++ {
+		ex.frontier = append(ex.frontier, []int32{})
+	}
 	if op := os.Getenv("GOSMT_ONLYPATH"); op != "" {
 		var pre []int32
 		for _, f := range strings.FieldsFunc(op, func(r rune) bool { return r == ',' || r == ' ' || r == '[' || r == ']' }) {
@@ -385,6 +390,7 @@ func (w *Worker) finishPath(i *interpreter, p *pathState, perr any) {
 	}
 	ex.mu.Lock()
 	ex.Paths++
+	ex.EstSum += p.weight
 	ex.Switches += int64(i.S.switches)
 	ex.Instr += int64(i.ninstr)
 	if len(i.S.threads) > ex.MaxThreads {
